@@ -422,6 +422,12 @@ class BodyInfo:
             r = body.reach(body.succs(since), avoid_edges=edges)
         if block not in r:
             return True
+        if since is None and edges and _depth == 0:
+            # paths that avoid `edges` but would need a switch edge contradicting the carrier value every reaching
+            # definition assigned on the way are not paths
+            inf = self.infeasible_from([0], avoid_edges=edges)
+            if inf and block not in body.reach([0], avoid_edges=edges + inf):
+                return True
         if since is not None or _depth >= 2 or not edges:
             return False
         for e, defs in list(self.bool_phi_switches) + list(self.variant_phi_switches):
@@ -536,10 +542,19 @@ class BodyInfo:
                     R = body.reach(starts, avoid_blocks=avoid_blocks, avoid_edges=av_e, stop_blocks=stop_blocks)
                     if e["block"] not in R or e["block"] in stop_blocks:
                         continue
-                    inR = [(b, w) for b, w in defs if b in R]
+                    inR0 = [(b, w) for b, w in defs if b in R or b in starts]
+                    # reaching definitions: a definition counts only if the switch can be reached from it without passing
+                    # another definition of the local (`let mut winner = None; loop { .. winner = Some(x); break; }`:
+                    # every way out of the loop other than exhaustion has overwritten the initial None)
+                    inR = []
+                    for b_, w_ in inR0:
+                        others_ = [x for x, _ in inR0 if x != b_]
+                        rr = body.reach(body.succs(b_), avoid_blocks=avoid_blocks + others_, avoid_edges=av_e, stop_blocks=stop_blocks)
+                        if e["block"] in rr or e["block"] == b_:
+                            inR.append((b_, w_))
                     if not inR or any(w != v for b, w in inR):
                         continue
-                    defblocks = [b for b, _ in inR]
+                    defblocks = [b for b, _ in inR0]
                     if e["block"] not in defblocks and e["block"] in body.reach(starts, avoid_blocks=avoid_blocks + defblocks, avoid_edges=av_e, stop_blocks=stop_blocks):
                         continue
                     out += [h for h in hyp if h not in out]
